@@ -104,7 +104,11 @@ def run(ck):
             raise vlib.Inconclusive("c31 engine: %s" % (r.get("harness_error") or r.get("panic")))
         for run_ in r["runs"]:
             pairs.append((s, run_))
-    bad = validate_traces(ck, pairs)
+    # a run that did not stop (a defect the time bound reports) can record tens of thousands of loop events;
+    # such traces are not sent to TLC (trace validation is about the order of events, the verdict is the time bound)
+    short = [(s_, r_) for s_, r_ in pairs if len(r_["events"]) <= 800]
+    ck.notes["traces_too_long_for_validation"] = len(pairs) - len(short)
+    bad = validate_traces(ck, short)
     nt = f_nt.result()
     ck.add_tlc(nt)
     if nt.ok or "Live" not in (nt.violation or ""):
